@@ -28,7 +28,7 @@ NO_SCALAR = ("YeoJohnson", "Softmax")
 
 def roundtrip(t, case, setting, labels, backward_first=False):
     cls = case["cls"]
-    pts = tc.points(t, case, setting)
+    pts = tc.points(t, case, setting, abs_guard=False)
     x = pts["x"]
     sx = pts["sx"]
     labels.extend(pts["lab"])
